@@ -2899,14 +2899,6 @@ let rec char_hits c s i =
     then i :: (char_hits c t (add i (clen x)))
     else char_hits c t (add i (clen x))
 
-(** val last_char_len : str -> nat option **)
-
-let rec last_char_len = function
-| [] -> None
-| x :: t -> (match t with
-             | [] -> Some (clen x)
-             | _ :: _ -> last_char_len t)
-
 (** val search_char_pos :
     (str -> str list) -> lb -> char_search -> nat -> nat option res **)
 
@@ -2930,9 +2922,10 @@ let search_char_pos seg0 b cs n0 =
                            | CsForwardBefore _ ->
                              (match slice_to b.buf (add shift p) with
                               | Ok l2 ->
-                                (match last_char_len l2 with
-                                 | Some k -> Ok (Some (sub (add shift p) k))
-                                 | None -> Panic)
+                                (match rev (seg0 l2) with
+                                 | [] -> Ok (Some (add shift p))
+                                 | g :: _ ->
+                                   Ok (Some (sub (add shift p) (blen g))))
                               | Panic -> Panic)
                            | _ -> Ok (Some (add shift p)))
                         | None -> Ok None)
@@ -2957,9 +2950,10 @@ let search_char_pos seg0 b cs n0 =
                            | CsForwardBefore _ ->
                              (match slice_to b.buf (add shift p) with
                               | Ok l2 ->
-                                (match last_char_len l2 with
-                                 | Some k -> Ok (Some (sub (add shift p) k))
-                                 | None -> Panic)
+                                (match rev (seg0 l2) with
+                                 | [] -> Ok (Some (add shift p))
+                                 | g :: _ ->
+                                   Ok (Some (sub (add shift p) (blen g))))
                               | Panic -> Panic)
                            | _ -> Ok (Some (add shift p)))
                         | None -> Ok None)
